@@ -169,7 +169,10 @@ impl C12 {
 
   fn reshapes(&mut self, out: &mut WorkerOut) {
     let maxn = self.tier.pick(12usize, 16usize);
-    for (k1, k2) in [("f64", "f64"), ("f64", "u8"), ("u8", "u8"), ("u8", "f64")] {
+    // "*" is the wildcard element kind: the annotation fixes the shape only, the elements keep their kind
+    let mut pairs = vec![("f64", "f64"), ("f64", "u8"), ("u8", "u8"), ("u8", "f64"), ("f64", "*"), ("u8", "*")];
+    if self.tier == Tier::Thorough { pairs.extend([("i64", "*"), ("i64", "i64"), ("f32", "f32"), ("u16", "f32")]); }
+    for (k1, k2) in pairs {
       for r in 1..=maxn { for c in 1..=maxn { if r * c > maxn { continue; }
         let vals: Vec<String> = (0..r * c).map(|i| format!("{}", i + 1)).collect();
         let dm = super::c01::define_matrix("m", k1, &vals, r, c);
@@ -191,11 +194,13 @@ impl C12 {
             continue;
           }
           match (&o, s.get(&format!("t{}", n))) {
-            (Outcome::Value(_), Some(Canon::Matrix(_, gr, gc, ge, _))) => {
+            (Outcome::Value(_), Some(Canon::Matrix(gk, gr, gc, ge, _))) => {
               // expected: element (i,j) of the result = the (j*r2+i)-th element of m in column-major order
               let mut want = vec![]; for i in 0..r2 { for j in 0..c2 { want.push(vals[colmajor[j * r2 + i]].clone()); } }
               let got: Vec<String> = ge.iter().map(|x| x.bare().trim_end_matches(".0").to_string()).collect();
+              let want_kind = if k2 == "*" { k1 } else { k2 };
               if (gr, gc) != (r2, c2) { out.fail(format!("C12|wrong-shape|{}", locus), case, format!("expected {}x{}, got {}x{}", r2, c2, gr, gc)); }
+              else if gk != want_kind { out.fail(format!("C12|wrong-kind|{}", locus), case, format!("expected elements of kind {}, got {}", want_kind, gk)); }
               else if got != want { out.fail(format!("C12|row-major|{}", locus), case, format!("column-major rearrangement {:?}, got {:?}", want, got)); }
             }
             (Outcome::Value(_), Some(other)) => { if !(r2 * c2 == 1) { out.fail(format!("C12|wrong-shape|{}", locus), case, format!("got {}", other.short())); } }
@@ -207,23 +212,51 @@ impl C12 {
   }
 
   fn to_set(&mut self, out: &mut WorkerOut) {
-    let universe = ["1", "2", "3"];
-    for (r, c) in [(1usize, 1usize), (1, 2), (2, 1), (1, 3), (3, 1), (2, 2), (2, 3), (3, 2)] {
-      let n = r * c;
-      if n > self.tier.pick(4, 6) { continue; }
-      for m in 0..3usize.pow(n as u32) {
-        let vals: Vec<String> = (0..n).map(|i| universe[m / 3usize.pow(i as u32) % 3].to_string()).collect();
-        let dm = super::c01::define_matrix("m", "f64", &vals, r, c);
-        let mut s = Session::new();
-        if !s.run(&dm).is_value() { continue; }
-        out.evaluations += 1; out.nontrivial += 1;
-        let o = s.run("q<{f64}> := m");
-        let case = format!("{}; q<{{f64}}> := m", dm);
-        let mut want: Vec<String> = vals.iter().map(|v| format!("{}.0", v)).collect(); want.sort(); want.dedup();
-        match (&o, s.get("q")) {
-          (Outcome::Value(_), Some(Canon::Set(_, e, declared))) => { let mut got: Vec<String> = e.iter().map(|x| x.bare()).collect(); let len = got.len(); got.sort(); if got != want || declared != len { out.fail(format!("C12|wrong-value|matrix->set:{}x{}", r, c), case, format!("distinct elements {:?}, got {:?} (declared size {})", want, got, declared)); } }
-          (Outcome::Panic(m), _) => out.fail("C12|panic|matrix->set".into(), case, m.clone()),
-          _ => out.fail(format!("C12|good-conversion-rejected|matrix->set:{}x{}", r, c), case, o.short()),
+    // (source kind, 3-value universe, target set element kinds): the set holds exactly the distinct *converted* elements
+    let plans: Vec<(&str, [&str; 3], Vec<&str>)> = vec![
+      ("f64", ["1", "2", "3"], vec!["f64"]),
+      ("f64", ["1", "2", "1.5"], vec!["u8", "i64", "f32", "u16"]),
+      ("u8", ["1", "2", "255"], vec!["u8", "f64", "u16", "i64"]),
+      ("i64", ["-1", "2", "3"], vec!["i64", "f64", "i8"]),
+      ("string", ["\"a\"", "\"b\"", "\"\""], vec!["string"]),
+      ("bool", ["true", "false", "true"], vec!["bool"]),
+    ];
+    for (k1, universe, targets) in plans {
+      for (r, c) in [(1usize, 1usize), (1, 2), (2, 1), (1, 3), (3, 1), (2, 2), (2, 3), (3, 2)] {
+        let n = r * c;
+        if n > self.tier.pick(4, 6) { continue; }
+        if k1 != "f64" && n > self.tier.pick(3, 4) { continue; }
+        for m in 0..3usize.pow(n as u32) {
+          let vals: Vec<String> = (0..n).map(|i| universe[m / 3usize.pow(i as u32) % 3].to_string()).collect();
+          let dm = super::c01::define_matrix("m", k1, &vals, r, c);
+          let mut s = Session::new();
+          if !s.run(&dm).is_value() { out.count("set_source_rejected"); continue; }
+          let actual: Vec<Canon> = match s.get("m") { Some(Canon::Matrix(_, _, _, e, _)) => e.clone(), Some(other) => vec![other], None => continue };
+          for (ti, k2) in targets.iter().enumerate() {
+            out.evaluations += 1;
+            let o = s.run(&format!("q{}<{{{}}}> := m", ti, k2));
+            let case = format!("{}; q<{{{}}}> := m", dm, k2);
+            // the rule of the statement applied to every element as held
+            let mut want: Vec<String> = vec![]; let mut judged = true;
+            for a in &actual {
+              if k1 == "string" || k1 == "bool" { want.push(a.bare()); continue; }
+              match src_of(a).map(|x| reference(&x, k2)) { Some(Want::Exact(cw)) => want.push(cw.bare()), _ => { judged = false; } }
+            }
+            if !judged { out.count("set_conversion_unjudged"); continue; }
+            want.sort(); want.dedup();
+            out.nontrivial += 1;
+            let locus = format!("matrix->set:{}->{}:{}x{}", k1, k2, r, c);
+            match (&o, s.get(&format!("q{}", ti))) {
+              (Outcome::Value(_), Some(Canon::Set(gk, e, declared))) => {
+                let mut got: Vec<String> = e.iter().map(|x| x.bare()).collect(); let len = got.len(); got.sort();
+                out.set("supported_set_pairs", &format!("{}->{}", k1, k2));
+                if got != want || declared != len { out.fail(format!("C12|wrong-value|{}", locus), case, format!("distinct converted elements {:?}, got {:?} (declared size {})", want, got, declared)); }
+                else if e.iter().any(|x| match x { Canon::Num(k, _) => k != k2, _ => false }) || (gk != *k2 && !e.is_empty()) { out.fail(format!("C12|wrong-kind|{}", locus), case, format!("a {{{}}} was requested, got {{{}}} holding {:?}", k2, gk, e.iter().map(|x| x.short()).collect::<Vec<_>>())); }
+              }
+              (Outcome::Panic(m), _) => out.fail(format!("C12|panic|matrix->set:{}->{}", k1, k2), case, m.clone()),
+              _ => out.fail(format!("C12|good-conversion-rejected|{}", locus), format!("{} [set {}->{}]", case, k1, k2), o.short()),
+            }
+          }
         }
       }
     }
@@ -231,7 +264,8 @@ impl C12 {
 
   fn no_conversion(&mut self, out: &mut WorkerOut) {
     // the statement's example of a kind with no conversion is string -> number; Boolean and set sources are recorded, not judged
-    for (src, k2) in [("\"5\"", "f64"), ("\"5\"", "u8"), ("\"abc\"", "i64"), ("\"1.5\"", "f32"), ("\"5\"", "r64"), ("[\"a\" \"b\"]", "[f64]"), ("[\"1\" \"2\"]", "[u8]"), ("\"x\"", "[f64]:1,1")] {
+    for (src, k2) in [("\"5\"", "f64"), ("\"5\"", "u8"), ("\"abc\"", "i64"), ("\"1.5\"", "f32"), ("\"5\"", "r64"), ("[\"a\" \"b\"]", "[f64]"), ("[\"1\" \"2\"]", "[u8]"), ("\"x\"", "[f64]:1,1"),
+      ("[\"a\" \"b\" \"a\"]", "{f64}"), ("[\"1\" \"2\"]", "{u8}"), ("[\"1\"; \"2\"]", "{i64}"), ("[\"1\" \"2\"; \"3\" \"4\"]", "{f32}"), ("[\"1\"]", "{u16}"), ("[\"a\" \"b\"]", "[f64]:2,1"), ("[\"a\" \"b\"]", "[*]:2,2"), ("[\"7\"; \"8\"]", "[i8]")] {
       let mut s = Session::new();
       if !s.run(&format!("a := {}", src)).is_value() { continue; }
       out.evaluations += 1; out.nontrivial += 1;
@@ -263,8 +297,9 @@ impl Check for C12 {
     rep.cov("bounds", json!({"kind_pairs": NK * NK}));
     drive_ranges(cfg, rep, range_jobs("", n_units(), 1));
     let supported = rep.out.sets.get("supported_pairs").cloned().unwrap_or_default();
+    let supported_sets = rep.out.sets.get("supported_set_pairs").cloned().unwrap_or_default();
     let before = rep.out.failures.len();
-    rep.out.failures.retain(|f| { if f.key.starts_with("C12|good-conversion-rejected|") && f.case.ends_with(']') { let k = f.case.rsplit('[').next().unwrap_or("").trim_end_matches(']'); supported.contains(k) } else { true } });
+    rep.out.failures.retain(|f| { if f.key.starts_with("C12|good-conversion-rejected|") && f.case.ends_with(']') { let k = f.case.rsplit('[').next().unwrap_or("").trim_end_matches(']'); if let Some(sk) = k.strip_prefix("set ") { supported_sets.contains(sk) } else { supported.contains(k) } } else { true } });
     rep.cov("rejections_for_unsupported_kind_pairs", json!(before - rep.out.failures.len()));
     if supported.len() < 100 { rep.vacuity.push(format!("only {} kind pairs converted", supported.len())); }
   }
